@@ -303,4 +303,169 @@ theorem C08_binding_partial (W : World N V T) (hW : LowerIdem W) (s : Sig N V T)
           | some b' => simp [hb] at hexp; exact hexp
     · cases hpb
 
+/-! ### corollaries in the property's words -/
+
+/-- **any accepted name is equivalent**: replacing the spelling of one keyword by another spelling the same
+parameter accepts (`alias`, `alias_from`, any case when case-insensitive) does not change the outcome of the call -/
+theorem C08_alias_equiv (W : World N V T) (hW : LowerIdem W) (s : Sig N V T) (wf : WF W s) (o : Opts)
+    (args : List V) (kwL kwR : List (N × V)) (k k' : N) (v : V) (p : Param N V T) (out : Outcome N V)
+    (hp : p ∈ Spec.kwParams s) (hk : Spec.accepted W p k = true) (hk' : Spec.accepted W p k' = true)
+    (hd : KnownDefect.privateKw W s (kwL ++ (k, v) :: kwR) = false)
+    (hd' : KnownDefect.privateKw W s (kwL ++ (k', v) :: kwR) = false)
+    (ha : KnownDefect.privateAnnotated W s = false)
+    (hexp : Spec.expected W s args (kwL ++ (k, v) :: kwR) = some out) :
+    call W s o args (kwL ++ (k, v) :: kwR) = out ∧ call W s o args (kwL ++ (k', v) :: kwR) = out := by
+  have key : ∀ x, Spec.accepted W p x = true → x ∉ s.excludeVars W → Spec.normKey W s x = p.name := by
+    intro x hx hne
+    obtain ⟨hpf, hpm⟩ := field_of_accepted W hW s wf x hne p hp hx
+    have hr := resolve_of_matches W hW s wf x p hpf hpm
+    exact (key_field W hW s wf x hne p hr (kwParams_sub W hW s wf p hp).2).1
+  have hne : k ∉ s.excludeVars W := by
+    intro hmem
+    have : KnownDefect.privateKw W s (kwL ++ (k, v) :: kwR) = true := by
+      unfold KnownDefect.privateKw
+      exact List.any_eq_true.mpr ⟨(k, v), by simp, by simpa using hmem⟩
+    rw [hd] at this; cases this
+  have hne' : k' ∉ s.excludeVars W := by
+    intro hmem
+    have : KnownDefect.privateKw W s (kwL ++ (k', v) :: kwR) = true := by
+      unfold KnownDefect.privateKw
+      exact List.any_eq_true.mpr ⟨(k', v), by simp, by simpa using hmem⟩
+    rw [hd'] at this; cases this
+  have hnorm : Spec.normalise W s (kwL ++ (k', v) :: kwR) = Spec.normalise W s (kwL ++ (k, v) :: kwR) := by
+    simp [Spec.normalise, key k hk hne, key k' hk' hne']
+  have hexp' : Spec.expected W s args (kwL ++ (k', v) :: kwR) = some out := by
+    unfold Spec.expected at hexp ⊢
+    rw [hnorm]; exact hexp
+  exact ⟨C08_binding_partial W hW s wf o args _ out hd ha hexp,
+    C08_binding_partial W hW s wf o args _ out hd' ha hexp'⟩
+
+/-- **by position or by name**: Python's own binding does not distinguish a positional-or-keyword parameter passed
+as the next positional argument from the same value passed under its name — stated on the specification … -/
+theorem pyBind_pos_eq_name (s : Sig N V T) (hnd : ((s.pos ++ s.kos).map (·.name)).Nodup) :
+    ∀ (ps : List (Param N V T)) (args : List V) (v : V) (kw : List (N × V)) (p : Param N V T),
+    (∀ q ∈ ps, q ∈ s.pos) → (ps.map (·.name)).Nodup →
+    ps[args.length]? = some p → p.posOnly = false → kw.lookup p.name = none →
+    bindPos kw ps (args ++ [v]) = bindPos ((p.name, v) :: kw) ps args := by
+  intro ps
+  induction ps with
+  | nil => intro args v kw p _ _ h; simp at h
+  | cons q ps ih =>
+    intro args v kw p hsub hn hidx hpo hl
+    simp only [List.map_cons, List.nodup_cons] at hn
+    cases args with
+    | nil =>
+      simp only [List.length_nil, List.getElem?_cons_zero, Option.some.injEq] at hidx
+      subst hidx
+      simp only [List.nil_append]
+      rw [bindPos, bindPos]
+      simp only [hpo, hl, Bool.not_false, Option.isSome_none, Bool.and_false, Bool.false_eq_true, if_false,
+        List.lookup_cons, beq_self_eq_true]
+      -- the remaining slots read the same: none of them is named q.name
+      have : ∀ (l : List (Param N V T)), q.name ∉ l.map (·.name) →
+          bindPos kw l [] = bindPos ((q.name, v) :: kw) l [] := by
+        intro l
+        induction l with
+        | nil => intro _; rfl
+        | cons r l ihl =>
+          intro hr
+          simp only [List.map_cons, List.mem_cons, not_or] at hr
+          rw [bindPos, bindPos, ihl hr.2]
+          have : (r.name == q.name) = false := by simpa using fun h => hr.1 h.symm
+          simp [List.lookup_cons, this]
+      rw [this ps hn.1]
+      rfl
+    | cons a args =>
+      simp only [List.length_cons, List.getElem?_cons_succ] at hidx
+      simp only [List.cons_append]
+      rw [bindPos, bindPos]
+      have hne : q.name ≠ p.name := by
+        intro h
+        have := List.mem_of_getElem? hidx
+        exact hn.1 (h ▸ List.mem_map_of_mem this)
+      have hb : (q.name == p.name) = false := by simpa using hne
+      simp only [List.lookup_cons, hb]
+      rw [ih args v kw p (fun r hr => hsub r (by simp [hr])) hn.2 hidx hpo hl]
+
+/-! ### witnesses: the full statement is false of the code, the hypotheses are satisfiable -/
+
+/-- a concrete world: names, values and types are numbers; names ≥ 1000 are private; `lower` folds 500-999 onto
+0-499; the transformer accepts values below 50 and adds 100 (so a conversion is visible and can fail) -/
+def W₁ : World Nat Nat Nat where
+  conv := fun _ v => if v < 50 then some (v + 100) else none
+  priv := fun n => decide (1000 ≤ n)
+  lower := fun n => if 500 ≤ n ∧ n < 1000 then n - 500 else n
+  noneV := 0
+
+theorem W₁_lowerIdem : LowerIdem W₁ := by
+  intro n
+  simp only [W₁]
+  by_cases h : 500 ≤ n ∧ n < 1000
+  · have h2 : ¬ (500 ≤ n - 500 ∧ n - 500 < 1000) := by omega
+    simp [h, h2]
+  · simp [h]
+
+/-- `def f(_x=1)`: Python binds `f(_x=7)` with `_x = 7`; the decorated function runs its body with `_x = 1` -/
+def sPrivKw : Sig Nat Nat Nat := { pos := [{ name := 1000, dflt := some 1 }] }
+
+theorem C08_private_kw_dropped_witness :
+    Spec.expected W₁ sPrivKw [] [(1000, 7)] = some (.body ⟨[7], [], [], []⟩) ∧
+    call W₁ sPrivKw {} [] [(1000, 7)] = .body ⟨[1], [], [], []⟩ ∧
+    KnownDefect.privateKw W₁ sPrivKw [(1000, 7)] = true := by decide
+
+/-- `def f(_x: int)`: the property wants `f(7)` converted (`107` in this world); the body gets the raw `7` -/
+def sPrivAnn : Sig Nat Nat Nat := { pos := [{ name := 1000, ann := some 0 }] }
+
+theorem C08_private_unparsed_witness :
+    Spec.expected W₁ sPrivAnn [7] [] = some (.body ⟨[107], [], [], []⟩) ∧
+    call W₁ sPrivAnn {} [7] [] = .body ⟨[7], [], [], []⟩ ∧
+    KnownDefect.privateAnnotated W₁ sPrivAnn = true := by decide
+
+/-- `def f(a: T, _p=9, b: T = Param(5, alias=600, case_insensitive=True), /, c: T = 3, *args: T, d, **kw: T)` -/
+def sDemo : Sig Nat Nat Nat :=
+  { pos := [{ name := 1, posOnly := true, ann := some 0 },
+            { name := 1001, posOnly := true, dflt := some 9 },
+            { name := 2, posOnly := true, ann := some 0, dflt := some 5 },
+            { name := 3, ann := some 0, dflt := some 3, alias := some 600, ci := true }],
+    vp := some (7, some 0),
+    kos := [{ name := 4 }],
+    vk := some (8, some 0) }
+
+theorem sDemo_wf : WF W₁ sDemo :=
+  ⟨by decide, by decide, by decide, by decide, by decide, by decide⟩
+
+/-- non-vacuity: the hypotheses of `C08_binding_partial` hold together, on a call that omits a private and a
+positional-only default, spells a parameter by an upper-case alias and carries an extra keyword, under both search
+strategies; the expected outcome is a real binding -/
+example :
+    WF W₁ sDemo ∧ LowerIdem W₁ ∧ KnownDefect.privateAnnotated W₁ sDemo = false ∧
+    KnownDefect.privateKw W₁ sDemo [(100, 2), (4, 60), (20, 1)] = false ∧
+    Spec.expected W₁ sDemo [10] [(100, 2), (4, 60), (20, 1)]
+      = some (.body ⟨[110, 9, 5, 102], [], [60], [(20, 101)]⟩) ∧
+    call W₁ sDemo {} [10] [(100, 2), (4, 60), (20, 1)] = .body ⟨[110, 9, 5, 102], [], [60], [(20, 101)]⟩ ∧
+    call W₁ sDemo { dfs := some true } [10] [(100, 2), (4, 60), (20, 1)]
+      = .body ⟨[110, 9, 5, 102], [], [60], [(20, 101)]⟩ :=
+  ⟨sDemo_wf, W₁_lowerIdem, by decide, by decide, by decide, by decide, by decide⟩
+
+/-- … and a value that does not convert stops the call before the body -/
+example : Spec.expected W₁ sDemo [70] [(4, 1)] = some .perr ∧ call W₁ sDemo {} [70] [(4, 1)] = .perr := by decide
+
+/-! ### the asynchronous wrappers before the fix -/
+
+/-- a raw generator that yields `100·k + (what it was resumed with)` four times -/
+def demoStep (k : Nat) (inp : Option Nat) : Step Nat Nat :=
+  if k < 4 then .yield (100 * k + inp.getD 0) (k + 1) else .ret none
+
+def W₂ : World Nat Nat Nat := { W₁ with conv := fun _ v => some v }
+
+/-- Pre-fix `async_from_generator`: the value yielded in response to `asend` is dropped and the raw generator is
+resumed once more with None — the caller sees `[0, 200, stop]` where the undecorated generator gives
+`[0, 101, 202, 303]`; the repaired wrapper (`wrapTrace`) agrees with the specification. -/
+theorem C08_legacy_asend_witness :
+    legacyAsyncTrace W₂ {} demoStep 0 [some 1, some 2, some 3] = [.yielded 0, .yielded 200, .returned none] ∧
+    Spec.genTrace W₂ {} demoStep 0 none [some 1, some 2, some 3]
+      = [.yielded 0, .yielded 101, .yielded 202, .yielded 303] ∧
+    wrapTrace W₂ {} demoStep 0 none [some 1, some 2, some 3]
+      = [.yielded 0, .yielded 101, .yielded 202, .yielded 303] := by decide
+
 end Utv.C08
